@@ -6,6 +6,7 @@ import EaselModel.Containers.RedBlackPtr
 import EaselModel.Containers.KeyhashApi
 import EaselModel.Containers.KeyhashFixed
 import EaselModel.Containers.KeyhashVariant
+import EaselModel.Containers.KeyhashSlots
 import EaselModel.Containers.Stack
 import EaselModel.Containers.StackThreads
 import EaselModel.Containers.Quicksort
@@ -200,6 +201,9 @@ def step (s : S) (line : String) : S × String :=
     | some d => (s, s!"ok nkeys={d.nkeys} sn={d.sn} hashsize={d.hashsize} nempty={d.nempty} max={d.maxkeys} min={d.minkeys} kalloc={d.kalloc} salloc={d.salloc} size={Keyhash.sizeofArrays s.kh}")
     | none => fault s
   | "kh_sizes" :: _ => (s, s!"ok hashsize={s.kh.hashsize} kalloc={s.kh.kalloc} salloc={s.kh.salloc} sn={s.kh.smem.size}")
+  | "kh_slots" :: _ =>
+    let r := Keyhash.slotStats s.kh
+    (s, s!"ok slots nkeys={s.kh.nkeys} hashsize={s.kh.hashsize} used={r.used} chained={r.chained} bad={r.bad} cyc={r.cyc}")
   -- ---------------- heap
   | "heap_new" :: _ => ({ s with heap := Heap.create ((argNat? ws "max").getD 0 == 1) }, "ok")
   | "hins" :: _ =>
